@@ -665,3 +665,54 @@ func reachable(from, to *ssa.BasicBlock) bool {
 	}
 	return false
 }
+
+// WhoWritesMapField: MapUpdate / Store instructions whose target is the map
+// held in field `field` (of any struct of package rel) occur only in the
+// allowed functions; the field itself is assigned only in constructors.
+func WhoWritesMapField(w *World, rule, rel, field string, allowed ...string) *report.RuleResult {
+	res := report.NewResult(rule)
+	ok := map[string]bool{}
+	for _, a := range allowed {
+		ok[a] = true
+	}
+	isField := func(v ssa.Value) bool {
+		u, isLoad := v.(*ssa.UnOp)
+		if !isLoad || u.Op != token.MUL {
+			return false
+		}
+		fa, isFA := u.X.(*ssa.FieldAddr)
+		return isFA && fieldName(fa.X.Type(), fa.Field) == field
+	}
+	for _, fn := range w.Funcs {
+		name := w.Name(fn)
+		for _, b := range fn.Blocks {
+			for _, in := range b.Instrs {
+				switch x := in.(type) {
+				case *ssa.MapUpdate:
+					if isField(x.Map) {
+						res.Count("writers", 1)
+						if ok[name] {
+							res.OK(name+"/update", w.InstrPos(in), name, "writes "+field+" (allowed writer)")
+						} else {
+							res.Bad(name+"/update", w.InstrPos(in), name, field+" is written outside "+strings.Join(allowed, ", ")+": something other than a declaration or a resolved reference enters the map")
+						}
+					}
+				case *ssa.Store:
+					if fa, isFA := x.Addr.(*ssa.FieldAddr); isFA && fieldName(fa.X.Type(), fa.Field) == field && load.Rel(fnPkg(fn)) == rel {
+						if Fresh(fa.X, map[ssa.Value]bool{}) {
+							res.OK(name+"/init", w.InstrPos(in), name, field+" initialised in a constructor")
+						} else {
+							res.Bad(name+"/assign", w.InstrPos(in), name, field+" of an existing resolver is replaced")
+						}
+					}
+				case ssa.CallInstruction:
+					com := x.Common()
+					if b, isB := com.Value.(*ssa.Builtin); isB && (b.Name() == "delete" || b.Name() == "clear") && len(com.Args) > 0 && isField(com.Args[0]) {
+						res.Bad(name+"/"+b.Name(), w.InstrPos(in), name, "entries of "+field+" are removed")
+					}
+				}
+			}
+		}
+	}
+	return res
+}
